@@ -30,8 +30,10 @@ CONSTANTS
   StartIdle = FALSE
   EveryExitStops = TRUE
   RxDropAtLoopEnd = TRUE
+  DequeueBatch = 0
+  QueueCap = 0
 SPECIFICATION Spec
 VIEW View
 SYMMETRY ThrSym
-INVARIANTS TypeOK C10_StartOrderRespectsSendOrder C10_AtMostOnce C10_OnOwnThread C10_NothingAfterStop C10_SpawnFalseWhenGone C10_JoinAfterLoopEnd C10_BlockOnOutput
+INVARIANTS TypeOK C10_StartOrderRespectsSendOrder C10_AtMostOnce C10_OnOwnThread C10_NothingAfterStop C10_SpawnFalseWhenGone C10_JoinAfterLoopEnd C10_BlockOnOutput C10_AcceptedStarts
 CHECK_DEADLOCK FALSE
